@@ -142,6 +142,20 @@ def check(ctx, res) -> None:
                     "every path out of the rollback handler raises" if ok else
                     "a path leaves the rollback handler without raising: the failure is swallowed",
                     function=f.qualname)
+            # R10.7 the compensating calls must not be interruptible by the task whose stop may be the failure
+            # being rolled back: they must not receive the enclosing method's job-set parameter.
+            fparams = {a.arg for a in f.node.args.args[1:]} | {a.arg for a in f.node.args.kwonlyargs}
+            leaked = []
+            for c in calls_in(hloop):
+                if isinstance(c.func, ast.Attribute) and c.func.attr in ("do", "undo"):
+                    used = {x.id for a in list(c.args) + [k.value for k in c.keywords] for x in ast.walk(a) if isinstance(x, ast.Name)}
+                    if used & fparams:
+                        leaked.append((c, sorted(used & fparams)))
+            res.add("R10.7", name, not leaked, f"{f.unit.rel}:{hloop.lineno}",
+                    "rollback calls run with the default (null) job set, so a stopped task cannot interrupt the rollback" if not leaked else
+                    f"the rollback handler calls {leaked[0][0].func.attr}({', '.join(leaked[0][1])}) with the caller's job set: when the failure being "
+                    "rolled back is a task stop, the first compensating call hits the same stop check, raises again, and nothing is rolled back",
+                    function=f.qualname)
             # R10.3
             blk = loop.body
             ins_stmt = next((s for s in blk if any(x is ins for x in ast.walk(s))), None)
